@@ -360,6 +360,25 @@ def check(ctx):
     f = mod.func("normalize_ordered_dict")
     ok = (all("type(d)" in unparse(r.value) and "d.items()" in unparse(r.value) for r in returns(f)) and bool(returns(f)))
     ctx.ob("TAB.type-tag", f, "normalize_ordered_dict keeps the type and the item order", ok)
+    # ---------------- ORD.sorted-only-unordered: sorting erases order, so only inherently unordered things are sorted
+    SORT_OK = {("_tokenize", "kwargs.items()"): "keyword arguments have no order", ("normalize_dict", "d.items()"): "dict equality ignores insertion order", ("normalize_set", "s"): "sets are unordered"}
+    n_s = 0
+    for f in ast.walk(mod.tree):
+        if not isinstance(f, (ast.FunctionDef, ast.AsyncFunctionDef)):
+            continue
+        for c in calls(f, "sorted", nested=False) if "nested" in calls.__code__.co_varnames else [c_ for c_ in walk_no_nested(f) if isinstance(c_, ast.Call) and call_name(c_) == "sorted"]:
+            n_s += 1
+            what = unparse(c.args[0]) if c.args else "?"
+            why = SORT_OK.get((f.name, what))
+            ctx.ob("ORD.sorted-only-unordered", c, f"{f.name}: sorted({what[:60]}) -- {why or 'not a reviewed unordered source'}", why is not None, "" if why else "the sorted sequence has a meaningful order (pickle buffers, fields, elements): values that differ only in arrangement get one token", nontrivial=why is None)
+    ctx.count("sorted_sites", n_s)
+    ctx.floor("sorted_sites", 3)
+    # ---------------- recursive containers: a back-reference names the POSITION of its target on the current path
+    sf = mod.func("_normalize_seq_func")
+    reg_ = find("_SEEN[id(seq)] = (len(_SEEN), seq)", sf) + find("_SEEN[id(seq)] = len(_SEEN), seq", sf)
+    back = [r for r in returns(sf) if eqv(r.value, "('__seen', _SEEN[id(seq)][0])")]
+    ok = len(reg_) >= 1 and len(back) == 1
+    ctx.ob("INJ.seen-depth", sf, "_SEEN[id(seq)] = (len(_SEEN), seq): the back-reference ('__seen', n) carries the depth at which its target was entered", ok, "" if ok else "any other number (the target's length, a constant) does not say WHICH ancestor the cycle closes on: a=[1,b], b=[2,a] and a=[1,b], b=[2,b] collide")
     # _tokenize: kwargs are sorted by name and kept apart from args
     f = mod.func("_tokenize")
     ok = bool(find("_normalize_seq_func(sorted(kwargs.items()))", f)) and bool(find("_normalize_seq_func(args)", f))
